@@ -361,6 +361,12 @@ def main():
             infra.append('no obligation group is registered for %s' % prop)
         with concurrent.futures.ThreadPoolExecutor(max_workers=int(os.environ.get('VERIF_JOBS', '16'))) as ex:
             futs = []
+            # extraction fidelity: extracted C (executable stubs) vs. the real library on random call sequences
+            import fidelity
+            fid_futs = {}
+            for cname in sorted(set(c.name for c, g in todo if not g.native)):
+                if cname in ('pess', 'opt', 'zipf') and not a.group:
+                    fid_futs[cname] = ex.submit(fidelity.check, cname, a.tier, seed, os.path.join(workdir, 'fid_' + cname))
             for c, g in todo:
                 futs.append(ex.submit(run_group, c, g, metas[c.name], os.path.join(workdir, c.name), a.tier))
                 if a.tier == 'thorough' and g.level == 'proof' and not g.native:
@@ -368,6 +374,14 @@ def main():
                     futs.append(ex.submit(run_group, c, g, metas[c.name], os.path.join(workdir, c.name), a.tier, second, True))
             for f in futs:
                 results.append(f.result())
+            fid = {}
+            for cname, f in fid_futs.items():
+                err, nobs = f.result()
+                fid[cname] = nobs
+                if err:
+                    infra.append('extraction fidelity check failed for %s (extractor broken, not a property verdict): %s' % (cname, err))
+            for m in metas.values():
+                m['fidelity'] = fid
         import verdict
         if a.debug:
             seen = set()
